@@ -91,6 +91,11 @@ pub struct ListDescriptorsResult {
   pub descriptors: Vec<Descriptor>,
 }
 
+/// Verification hook (cfg ordinals_ord_verif): what `getblockchaininfo` reports
+/// as `headers`. -1: the stock answer (0); -2: the current tip height; n >= 0: n.
+#[cfg(ordinals_ord_verif)]
+pub static VERIF_HEADERS: std::sync::atomic::AtomicI64 = std::sync::atomic::AtomicI64::new(-1);
+
 pub fn builder() -> Builder {
   Builder {
     fail_lock_unspent: false,
